@@ -73,7 +73,7 @@ Section Writers.
      np_fail = packetFactory.NewPacket returns an error (payload > 1460 or padding overflow) *)
   Variable same_stream : P -> bool.
   Variable np_fail : P -> bool.
-  Definition E_NEWPACKET : Z := 901.
+  Definition E_NEWPACKET : Z := 900. (* errors made by the library itself: one code (the harness cannot tell them apart) *)
   Definition w_responder (bound : bool) : wrapper := fun S inner p st =>
     if negb bound then w_id S inner p st else
     let '(w, s) := st in
@@ -86,7 +86,7 @@ Section Writers.
   (* twcc.HeaderExtensionInterceptor.BindLocalStream.  sid = hdrExtID (0: writer returned
      unchanged); set_ext = header.SetExtension(sid, tcc(ctr)) (None = error). *)
   Variable set_tcc : Z -> Z -> P -> option P.   (* sid, sequence number, packet *)
-  Definition E_SETEXT : Z := 902.
+  Definition E_SETEXT : Z := 900.
   Definition w_twcc_ext (sid : Z) : wrapper := fun S inner p st =>
     if sid =? 0 then w_id S inner p st else
     let '(w, s) := st in
@@ -166,7 +166,7 @@ Section Readers.
   Definition rs0 := mkRs 0 [].
   Definition rwrapper := forall S : Type, reader S -> reader (rs * S).
 
-  Definition E_PARSE : Z := 903.
+  Definition E_PARSE : Z := 900.
   Definition FRESH_ID : Z := -1.     (* make(interceptor.Attributes) inside a wrapper *)
 
   (* "if attr == nil { attr = make(Attributes) }" *)
@@ -212,7 +212,7 @@ Section Readers.
      ext h = None: no extension, nothing recorded; Some false: extension shorter than two
      bytes -> error returned; Some true: recorded *)
   Variable tcc_ext : H -> option bool.
-  Definition E_TCCEXT : Z := 904.
+  Definition E_TCCEXT : Z := 900.
   Definition r_twcc_sender (sid : Z) : rwrapper := fun S inner a st =>
     if sid =? 0 then r_id S inner a st else
     let '(w, s) := st in
